@@ -1,3 +1,24 @@
+/-
+  Inductive invariants of the model `Wake` (Model/Wake.lean): the event loop's wake-up protocol
+  (as in `Sig`) plus the condition-variable side (owed Broadcasts, w.mx, WaitUntilFinished).
+
+  For every reachable state (`reach_invAB`, `reach_invM`, `reach_ghost`, `reach_parkedList`):
+    (A) Dispatchable s → tok ∨ 0 < nOwes ∨ dph.willEval
+    (B) dph = sawCur c → c ≤ cur ∨ tok ∨ 0 < nOwes
+    (M) wph g ∈ {locked, sawStatus _, sawLen0, willPark, willReturn} → mx = some g
+    `Ghost`       nOwes / nOwesBc are the sums of owes / owesBc over a finite duplicate-free support
+    `ParkedList`  the goroutines in phase `parked` form a duplicate-free list of length nParked
+
+  For every state reachable without a `wPark` by the event-loop goroutine (`ReachP`, `reachP_inv`),
+  with  Cov s g := owesBc g < nOwesBc ∨ dph.active ∨ tok ∨ 0 < nOwes ∨ 0 < cur
+  (a Broadcast that g does not perform itself is on its way):
+    (G) 0 < conc → wph g = sawStatus running → disp ≠ some g → ws = running ∨ Cov s g ∨ (qlen = 0 ∧ cur = 0)
+    (E) 0 < conc → wph g = willPark → disp ≠ some g → CondTrue s ∨ Cov s g
+    (C) 0 < conc → 0 < nParked → CondTrue s ∨ 0 < nOwesBc ∨ dph.active ∨ tok ∨ 0 < nOwes ∨ 0 < cur
+  The premise `0 < conc` is part of the clauses, not of the reachability notion: every step from
+  conc = 0 to conc > 0 is a `stConc` upwards, which owes a notify(), so the clauses are restored
+  at that moment.  (G), (E), (C) are false for plain `Reach`: see Proofs/Wake.lean.
+-/
 import VarmqVerif.Model.Wake
 
 namespace VarmqVerif
@@ -70,27 +91,343 @@ theorem invM_step {s s' : State} {e : Ev} (hi : InvM s) (h : step s e = .ok s') 
 def Cov (s : State) (g : Nat) : Prop :=
   s.owesBc g < s.nOwesBc ∨ s.dph.active = true ∨ s.tok = true ∨ 0 < s.nOwes ∨ 0 < s.cur
 
-/-- the event-loop goroutine is not in the middle of WaitUntilFinished's condition() -/
-def LoopNotWaiting (s : State) : Prop :=
-  ∀ d, s.disp = some d → s.wph d ≠ .willPark ∧ s.wph d ≠ .sawStatus running
+/-- the event-loop goroutine calls Cond.Wait (in the Go code it never calls WaitUntilFinished) -/
+def loopParks (s : State) : Ev → Bool
+  | .wPark g => isDisp s g
+  | _ => false
 
+/-- (E) a goroutine (other than the event loop) that has decided to park -/
 def InvE (s : State) : Prop :=
-  0 < s.conc → ∀ g, s.wph g = .willPark → CondTrue s ∨ Cov s g
+  0 < s.conc → ∀ g, s.wph g = .willPark → s.disp ≠ some g → CondTrue s ∨ Cov s g
 
+/-- (G) a goroutine (other than the event loop) that has read status = running in condition() -/
 def InvG (s : State) : Prop :=
-  0 < s.conc → ∀ g, s.wph g = .sawStatus running → s.ws = running ∨ Cov s g ∨ (s.qlen = 0 ∧ s.cur = 0)
+  0 < s.conc → ∀ g, s.wph g = .sawStatus running → s.disp ≠ some g →
+    s.ws = running ∨ Cov s g ∨ (s.qlen = 0 ∧ s.cur = 0)
 
+/-- (C) the parked goroutines -/
 def InvC (s : State) : Prop :=
   0 < s.conc → 0 < s.nParked →
     CondTrue s ∨ 0 < s.nOwesBc ∨ s.dph.active = true ∨ s.tok = true ∨ 0 < s.nOwes ∨ 0 < s.cur
 
+/-- Where the hypotheses are needed: `stStatus` away from running with cur = 0 ∧ 0 < qlen: the state
+    before was dispatchable, (A) gives a token, an owed notify() or an event loop that is active;
+    `bcast g'`: g' holds w.mx, so by (M) it is `g` itself and the Broadcasts owed by others are
+    untouched; `dCur` in phase `exiting` with result 0: the event loop owes a Broadcast, it is not
+    `g`, and `owesBc g ≤ nOwesBc` makes the inequality strict. -/
 theorem invG_step {s s' : State} {e : Ev} (hA : InvA s) (hM : InvM s) (hle : ∀ g, s.owesBc g ≤ s.nOwesBc)
-    (hsep : LoopNotWaiting s) (hi : InvG s) (h : step s e = .ok s') : InvG s' := by
+    (hi : InvG s) (h : step s e = .ok s') : InvG s' := by
   unfold InvA Dispatchable at hA
   unfold InvM at hM
-  unfold LoopNotWaiting at hsep
   unfold InvG Cov at hi ⊢
-  cases e <;> wstep_cases h <;> grind [isDisp, WPh.crit, DPh.willEval, DPh.active, owe, oweBc, upd]
+  cases e <;> wstep_cases h <;> (try simp only [owe, oweBc]) <;>
+    grind [isDisp, WPh.crit, DPh.willEval, DPh.active, upd]
+
+/-- as `invG_step`; `wLen g n` with 0 < n uses (G), `wCur g c` with 0 < c gives 0 < cur -/
+theorem invE_step {s s' : State} {e : Ev} (hA : InvA s) (hM : InvM s) (hle : ∀ g, s.owesBc g ≤ s.nOwesBc)
+    (hG : InvG s) (hi : InvE s) (h : step s e = .ok s') : InvE s' := by
+  unfold InvA Dispatchable at hA
+  unfold InvM at hM
+  unfold InvG Cov at hG
+  unfold InvE Cov CondTrue at hi ⊢
+  cases e <;> wstep_cases h <;> (try simp only [owe, oweBc]) <;>
+    grind [isDisp, isQuietStatus, WPh.crit, DPh.willEval, DPh.active, upd]
+
+/-- `wPark g` uses (E) (this is where `g` must not be the event loop); `bcast` makes (C) vacuous -/
+theorem invC_step {s s' : State} {e : Ev} (hA : InvA s) (hle : ∀ g, s.owesBc g ≤ s.nOwesBc)
+    (hnp : loopParks s e = false) (hE : InvE s) (hi : InvC s) (h : step s e = .ok s') : InvC s' := by
+  unfold InvA Dispatchable at hA
+  unfold InvE Cov CondTrue at hE
+  unfold InvC CondTrue at hi ⊢
+  cases e <;> wstep_cases h <;> (try simp only [owe, oweBc]) <;>
+    grind [loopParks, isDisp, WPh.crit, DPh.willEval, DPh.active, upd]
+
+/-! ## The ghost counters -/
+
+theorem sum_map_upd_not_mem (f : Nat → Nat) (g v : Nat) (l : List Nat) (hg : g ∉ l) :
+    (l.map (upd f g v)).sum = (l.map f).sum := by
+  induction l with
+  | nil => rfl
+  | cons a t ih =>
+    simp only [List.mem_cons, not_or] at hg
+    have ha : a ≠ g := fun h => hg.1 h.symm
+    simp [List.map_cons, List.sum_cons, ih hg.2, upd, ha]
+
+theorem sum_map_upd_mem (f : Nat → Nat) (g v : Nat) (l : List Nat) (hn : l.Nodup) (hg : g ∈ l) :
+    (l.map (upd f g v)).sum + f g = (l.map f).sum + v := by
+  induction l with
+  | nil => cases hg
+  | cons a t ih =>
+    rw [List.nodup_cons] at hn
+    by_cases ha : a = g
+    · subst ha
+      simp only [List.map_cons, List.sum_cons, upd_same, sum_map_upd_not_mem f a v t hn.1]
+      omega
+    · have hgt : g ∈ t := by
+        rcases List.mem_cons.mp hg with h | h
+        · exact absurd h.symm ha
+        · exact h
+      have := ih hn.2 hgt
+      simp only [List.map_cons, List.sum_cons, upd_other f g a v ha]
+      omega
+
+theorem le_sum_of_mem (f : Nat → Nat) (g : Nat) (l : List Nat) (hg : g ∈ l) : f g ≤ (l.map f).sum := by
+  induction l with
+  | nil => cases hg
+  | cons a t ih =>
+    simp only [List.map_cons, List.sum_cons]
+    rcases List.mem_cons.mp hg with h | h
+    · subst h; omega
+    · have := ih h; omega
+
+theorem exists_pos_of_sum_pos (f : Nat → Nat) (l : List Nat) (h : 0 < (l.map f).sum) : ∃ g, g ∈ l ∧ 0 < f g := by
+  induction l with
+  | nil => simp at h
+  | cons a t ih =>
+    simp only [List.map_cons, List.sum_cons] at h
+    by_cases ha : 0 < f a
+    · exact ⟨a, List.mem_cons_self, ha⟩
+    · obtain ⟨g, hg, hp⟩ := ih (by omega)
+      exact ⟨g, List.mem_cons_of_mem a hg, hp⟩
+
+/-- `n` is the sum of `f` over a finite duplicate-free list outside of which `f` is 0 -/
+def SumOf (f : Nat → Nat) (n : Nat) : Prop :=
+  ∃ l : List Nat, l.Nodup ∧ (∀ g, g ∉ l → f g = 0) ∧ (l.map f).sum = n
+
+theorem sumOf_zero : SumOf (fun _ => 0) 0 := ⟨[], by simp, by simp, by simp⟩
+
+theorem sumOf_incr {f : Nat → Nat} {n : Nat} (g : Nat) (hs : SumOf f n) : SumOf (upd f g (f g + 1)) (n + 1) := by
+  obtain ⟨l, hn, h0, hsum⟩ := hs
+  by_cases hg : g ∈ l
+  · refine ⟨l, hn, ?_, ?_⟩
+    · intro x hx
+      have hxg : x ≠ g := fun h => hx (h ▸ hg)
+      simp [upd, hxg, h0 x hx]
+    · have := sum_map_upd_mem f g (f g + 1) l hn hg
+      omega
+  · refine ⟨g :: l, List.nodup_cons.mpr ⟨hg, hn⟩, ?_, ?_⟩
+    · intro x hx
+      simp only [List.mem_cons, not_or] at hx
+      simp [upd, hx.1, h0 x hx.2]
+    · have := sum_map_upd_not_mem f g (f g + 1) l hg
+      have hz := h0 g hg
+      simp only [List.map_cons, List.sum_cons, upd_same]
+      omega
+
+theorem sumOf_decr {f : Nat → Nat} {n : Nat} (g : Nat) (hpos : f g ≠ 0) (hs : SumOf f n) :
+    SumOf (upd f g (f g - 1)) (n - 1) := by
+  obtain ⟨l, hn, h0, hsum⟩ := hs
+  have hg : g ∈ l := by
+    apply Classical.byContradiction
+    intro hg
+    exact hpos (h0 g hg)
+  refine ⟨l, hn, ?_, ?_⟩
+  · intro x hx
+    have hxg : x ≠ g := fun h => hx (h ▸ hg)
+    simp [upd, hxg, h0 x hx]
+  · have := sum_map_upd_mem f g (f g - 1) l hn hg
+    omega
+
+theorem sumOf_le {f : Nat → Nat} {n : Nat} (hs : SumOf f n) (g : Nat) : f g ≤ n := by
+  obtain ⟨l, _, h0, hsum⟩ := hs
+  by_cases hg : g ∈ l
+  · have := le_sum_of_mem f g l hg
+    omega
+  · have := h0 g hg
+    omega
+
+theorem sumOf_pos {f : Nat → Nat} {n : Nat} (hs : SumOf f n) (h : 0 < n) : ∃ g, 0 < f g := by
+  obtain ⟨l, _, _, hsum⟩ := hs
+  obtain ⟨g, _, hp⟩ := exists_pos_of_sum_pos f l (by omega)
+  exact ⟨g, hp⟩
+
+/-- `nOwes` is the sum of `owes`, `nOwesBc` the sum of `owesBc` -/
+def Ghost (s : State) : Prop := SumOf s.owes s.nOwes ∧ SumOf s.owesBc s.nOwesBc
+
+theorem ghost_init (c : Nat) : Ghost (init c) := ⟨sumOf_zero, sumOf_zero⟩
+
+theorem ghost_step {s s' : State} {e : Ev} (hs : Ghost s) (h : step s e = .ok s') : Ghost s' := by
+  obtain ⟨h1, h2⟩ := hs
+  cases e with
+  | notify g sent =>
+    wstep_cases h
+    · exact ⟨h1, h2⟩
+    · rename_i _ hz _
+      exact ⟨sumOf_decr g (by simpa using hz) h1, h2⟩
+  | bcast g n =>
+    wstep_cases h
+    rename_i _ hz _ _
+    exact ⟨h1, sumOf_decr g (by simpa using hz) h2⟩
+  | _ =>
+    wstep_cases h <;>
+      first
+      | exact ⟨h1, h2⟩
+      | exact ⟨sumOf_incr _ h1, h2⟩
+      | exact ⟨h1, sumOf_incr _ h2⟩
+      | exact ⟨sumOf_incr _ h1, sumOf_incr _ h2⟩
+
+theorem reach_ghost {s : State} (hr : Reach s) : Ghost s := by
+  induction hr with
+  | init c => exact ghost_init c
+  | step e _ h ih => exact ghost_step ih h
+
+/-! ## The parked goroutines -/
+
+/-- `nParked` is the number of goroutines in phase `parked` -/
+def ParkedList (s : State) : Prop :=
+  ∃ l : List Nat, l.Nodup ∧ (∀ g, s.wph g = .parked ↔ g ∈ l) ∧ l.length = s.nParked
+
+theorem parkedList_init (c : Nat) : ParkedList (init c) := ⟨[], by simp, by simp [init], by simp [init]⟩
+
+theorem parkedList_upd {s : State} {g : Nat} {v : WPh} {w : Nat → WPh} {n : Nat}
+    (hold : s.wph g ≠ .parked) (hv : v ≠ .parked) (hw : w = upd s.wph g v) (hn : n = s.nParked)
+    (hs : ParkedList s) : ∃ l : List Nat, l.Nodup ∧ (∀ x, w x = .parked ↔ x ∈ l) ∧ l.length = n := by
+  obtain ⟨l, hnd, hm, hlen⟩ := hs
+  refine ⟨l, hnd, ?_, by omega⟩
+  intro x
+  subst hw
+  by_cases hx : x = g
+  · subst hx
+    have := hm x
+    simp [upd, hv]
+    grind
+  · simp [upd, hx, hm x]
+
+theorem parkedList_step {s s' : State} {e : Ev} (hs : ParkedList s) (h : step s e = .ok s') : ParkedList s' := by
+  cases e with
+  | bcast g n =>
+    wstep_cases h
+    refine ⟨[], by simp, ?_, rfl⟩
+    intro x
+    by_cases hx : s.wph x = .parked <;> simp [hx]
+  | wPark g =>
+    wstep_cases h
+    rename_i _ hp
+    have hp' : s.wph g = .willPark := by simpa using hp
+    obtain ⟨l, hnd, hm, hlen⟩ := hs
+    have hg : g ∉ l := by
+      intro hg
+      have := (hm g).mpr hg
+      simp [hp'] at this
+    refine ⟨g :: l, List.nodup_cons.mpr ⟨hg, hnd⟩, ?_, by simp [hlen]⟩
+    intro x
+    by_cases hx : x = g
+    · subst hx; simp [upd]
+    · simp [upd, hx, hm x]
+  | _ =>
+    wstep_cases h <;>
+      first
+      | exact hs
+      | (refine parkedList_upd (s := s) ?_ ?_ rfl rfl hs <;> grind)
+
+theorem reach_parkedList {s : State} (hr : Reach s) : ParkedList s := by
+  induction hr with
+  | init c => exact parkedList_init c
+  | step e _ h ih => exact parkedList_step ih h
+
+/-! ## Putting the invariant together -/
+
+theorem reach_invAB {s : State} (hr : Reach s) : InvAB s := by
+  induction hr with
+  | init c => exact invAB_init c
+  | step e _ h ih => exact invAB_step ih h
+
+theorem reach_invM {s : State} (hr : Reach s) : InvM s := by
+  induction hr with
+  | init c => exact invM_init c
+  | step e _ h ih => exact invM_step ih h
+
+/-- Reachability by executions in which the event-loop goroutine never calls Cond.Wait. -/
+inductive ReachP : State → Prop
+  | init (c : Nat) : ReachP (init c)
+  | step {s s' : State} (e : Ev) : ReachP s → loopParks s e = false → step s e = .ok s' → ReachP s'
+
+theorem ReachP.reach {s : State} (hr : ReachP s) : Reach s := by
+  induction hr with
+  | init c => exact Reach.init c
+  | step e _ _ h ih => exact Reach.step e ih h
+
+/-- If the event-loop goroutine is never in phase `willPark` (for instance because `step` rejects
+    `wStatus` by the event loop and `recvTok` by a goroutine inside WaitUntilFinished), the
+    restriction is void. -/
+theorem reachP_of_reach (hsep : ∀ s g, Reach s → s.disp = some g → s.wph g ≠ .willPark) {s : State}
+    (hr : Reach s) : ReachP s := by
+  induction hr with
+  | init c => exact ReachP.init c
+  | @step s s' e hr h ih =>
+    refine ReachP.step e ih ?_ h
+    cases e with
+    | wPark g =>
+      simp only [loopParks, isDisp]
+      cases hd : s.disp == some g with
+      | false => rfl
+      | true =>
+        have hd' : s.disp = some g := by simpa using hd
+        have := hsep s g hr hd'
+        wstep_cases h
+        rename_i _ hp
+        simp at hp
+        exact absurd hp this
+    | _ => rfl
+
+/-- The same for a guard in `step`: if `wPark` by the event-loop goroutine is never accepted (one
+    more guard in `wPark`: `if isDisp s g then .error …`), the restriction is void. -/
+theorem reachP_of_guard (hguard : ∀ s g s', Reach s → s.disp = some g → step s (.wPark g) ≠ .ok s') {s : State}
+    (hr : Reach s) : ReachP s := by
+  induction hr with
+  | init c => exact ReachP.init c
+  | @step s s' e hr h ih =>
+    refine ReachP.step e ih ?_ h
+    cases e with
+    | wPark g =>
+      simp only [loopParks, isDisp]
+      cases hd : s.disp == some g with
+      | false => rfl
+      | true => exact absurd h (hguard s g s' hr (by simpa using hd))
+    | _ => rfl
+
+/-- `run` that rejects Cond.Wait by the event-loop goroutine -/
+def runP (s : State) : List Ev → Except String State
+  | [] => .ok s
+  | e :: es =>
+    if loopParks s e then .error "the event loop goroutine calls Cond.Wait"
+    else match step s e with
+      | .ok s' => runP s' es
+      | .error m => .error m
+
+theorem reachP_runP {s s' : State} {es : List Ev} (hr : ReachP s) (h : runP s es = .ok s') : ReachP s' := by
+  induction es generalizing s with
+  | nil => simp only [runP] at h; cases h; exact hr
+  | cons e es ih =>
+    simp only [runP] at h
+    split at h
+    · cases h
+    · rename_i hb
+      split at h
+      · rename_i s1 h1
+        exact ih (ReachP.step e hr (by simpa using hb) h1) h
+      · cases h
+
+structure Inv (s : State) : Prop where
+  ab : InvAB s
+  m : InvM s
+  g : InvG s
+  e : InvE s
+  c : InvC s
+
+theorem inv_init (c : Nat) : Inv (init c) := by
+  refine ⟨invAB_init c, invM_init c, ?_, ?_, ?_⟩
+  · intro _ g h; simp [init] at h
+  · intro _ g h; simp [init] at h
+  · intro _ h; simp [init] at h
+
+theorem reachP_inv {s : State} (hr : ReachP s) : Inv s := by
+  induction hr with
+  | init c => exact inv_init c
+  | @step s s' e hr hnp h ih =>
+    have hle : ∀ g, s.owesBc g ≤ s.nOwesBc := sumOf_le (reach_ghost hr.reach).2
+    exact ⟨invAB_step ih.ab h, invM_step ih.m h, invG_step ih.ab.1 ih.m hle ih.g h,
+      invE_step ih.ab.1 ih.m hle ih.g ih.e h, invC_step ih.ab.1 hle hnp ih.e ih.c h⟩
 
 end Wake
 end VarmqVerif
